@@ -30,7 +30,12 @@ def build_tree(specs, livefs, repo_id):
     tree = SimpleTree(cpv_dict, pkg_klass=pkg_klass, livefs=livefs, repo_id=repo_id)
     for s in specs:
         data = {cls: gp.render_deps(s["deps"].get(cls, ())) for cls in gp.DEP_CLASSES}
-        cache[(gp.CATEGORY, s["name"], s["ver"])] = FakePkg(gp.cpvstr(s), eapi="8", slot=s["slot"], repo=tree, data=data)
+        pkg = FakePkg(gp.cpvstr(s), eapi="8", slot=s["slot"], repo=tree, data=data)
+        if livefs:
+            # packages of a real installed database are built packages (ebuild_built.package.built = True): the
+            # resolver does not walk their DEPEND/BDEPEND (merge_plan.process_built_depends is off by default)
+            object.__setattr__(pkg, "built", True)
+        cache[(gp.CATEGORY, s["name"], s["ver"])] = pkg
     return tree
 
 
